@@ -5,7 +5,11 @@ where
     S: AsRef<str>,
 {
     let input = input.as_ref();
-    let normalized = input.replace(" ", "").replace("-", "+-");
+    let normalized = input
+        .chars()
+        .filter(|c| !c.is_whitespace())
+        .collect::<String>()
+        .replace("-", "+-");
     let mut parts: Vec<&str> = normalized.split('+').collect();
 
     // Handles instance of the first value of poly being negative
